@@ -14,7 +14,8 @@ package liteclient
 //   - request = 256 bytes: sha256(0xc6b41348 | server ed25519 key) | client ed25519 key | sha256(params) | E(params)
 //   - secret = X25519(clamp(sha512(server seed)[:32]), u) with u = (1+y)/(1-y) mod 2^255-19 of the client's key
 //     (math/big + crypto/ecdh), params key = secret[0:16] | hash[16:32], iv = hash[0:4] | secret[20:32], AES-256-CTR
-//   - params = rx_key(32) rx... : server->client stream AES-CTR(params[0:32], params[64:80]), client->server stream
+//   - params (160 bytes) = rx_key(32) | tx_key(32) | rx_nonce(16) | tx_nonce(16) | padding(64), named from the client's
+//     point of view: server->client stream AES-CTR(params[0:32], params[64:80]), client->server stream
 //     AES-CTR(params[32:64], params[80:96]); the sha256 of the decrypted params must equal the transmitted hash
 //   - frame = LE32(64+len) | nonce(32) | payload | sha256(nonce|payload); the confirmation is the empty frame
 // Transports: "tcp" = liteclient.NewConnection against a loopback listener on 127.0.0.1:0 (the public path; segments
@@ -40,7 +41,7 @@ package liteclient
 //     random 150 / 3000; back-to-back sizes 0..2000 step 7 / all (pipe twice, tcp once); tcp: 13 / 70 cuts, 1-byte
 //     reads, 5 / 30 random
 // Payloads are compared only after ALL packets of a connection were received (a payload must not change when later
-// packets arrive). Waits are limited to 4 s each; a sub-test skips the remaining cases of a transport after 2 failing cases on it.
+// packets arrive). Waits are limited to 3 s each; a sub-test skips the remaining cases of a transport after 2 failing cases on it.
 
 import (
 	"bytes"
@@ -66,7 +67,7 @@ import (
 	"time"
 )
 
-const c11bWait = 4 * time.Second
+const c11bWait = 3 * time.Second
 
 func c11bSeed() int64 {
 	if v, err := strconv.ParseInt(os.Getenv("VERIF_SEED"), 10, 64); err == nil {
